@@ -112,6 +112,22 @@ for f, s in srcs.items():
             conds = re.findall(r"if\s*\(([^{;]*?)\)\s*\{", body)
             conds = [re.sub(r"\s+", " ", c.strip()) for c in conds]
             rows.append([os.path.basename(f), name, "zz", "conditions", " ;; ".join(conds)])
+            # control/effect skeleton in source order: if / for / continue / break / revert X / assignments to state or accumulators
+            flow = []
+            for tm in re.finditer(r"\b(if|continue|break|return)\b|revert\s+(\w+)|\b(\w+)\s*(\+=|-=|=)(?![=>])\s*([^;]*);|for\s*\(([^)]*)\)|(?<![\w.])(_checkValidatorSignatures|_verifySig)\s*\(", body):
+                if tm.group(6) is not None: flow.append("for " + re.sub(r"\s+", " ", tm.group(6).strip()))
+                elif tm.group(7):
+                    k2 = matching(body, tm.end() - 1)
+                    flow.append("call " + tm.group(7) + "(" + re.sub(r"\s+", " ", body[tm.end():k2].strip()) + ")")
+                elif tm.group(1): flow.append(tm.group(1))
+                elif tm.group(2): flow.append("revert " + tm.group(2))
+                else:
+                    pre = body[:tm.start()].rstrip()
+                    if re.search(r"(" + TYPES + r")(\s+(memory|calldata))?$", pre):  # a local declaration: keep name only
+                        flow.append("let " + tm.group(3) + " = " + re.sub(r"\s+", " ", tm.group(5).strip()))
+                    else:
+                        flow.append(tm.group(3) + " " + tm.group(4) + " " + re.sub(r"\s+", " ", tm.group(5).strip()))
+            rows.append([os.path.basename(f), name, "zz", "flow", " ;; ".join(flow)])
             reqs = [re.sub(r"\s+", " ", r.strip()) for r in re.findall(r"require\s*\((.*?),\s*\"", body, flags=re.S)]
             if reqs:
                 rows.append([os.path.basename(f), name, "zz", "requires", " ;; ".join(reqs)])
